@@ -179,7 +179,7 @@ func execJRT(s *Sexp) string {
 				var d2 []byte
 				switch tv := v.(type) {
 				case map[string]interface{}:
-					if len(tv) > 1 {
+					if jHasMultiKeyMaps(tv) {
 						continue
 					}
 					d2, err = p.Marshal(dst, &tv)
@@ -395,7 +395,7 @@ func runC16(r *Runner, g *Gen, tier string) string {
 			if g.r.Bool() {
 				v = g.jarr(d)
 			}
-			enc := execOp(L(A("jrt"), A("enc"), v))
+			enc := jenc(r, v)
 			if strings.HasPrefix(enc, "ok x") {
 				r.Do(L(A("jrt"), A("top"), v, A(enc[3:])), true, "jrt.top")
 			}
@@ -406,7 +406,7 @@ func runC16(r *Runner, g *Gen, tier string) string {
 				if g.r.Bool() {
 					v, prior = g.jarr(d), g.jarr(d)
 				}
-				enc := execOp(L(A("jrt"), A("enc"), v))
+				enc := jenc(r, v)
 				if strings.HasPrefix(enc, "ok x") {
 					r.Do(L(A("jrt"), A("merge"), v, prior, A(enc[3:])), true, "jrt.merge")
 				}
@@ -420,7 +420,7 @@ func runC16(r *Runner, g *Gen, tier string) string {
 			if g.r.Bool() {
 				v = g.jarr(d)
 			}
-			enc := execOp(L(A("jrt"), A("enc"), v))
+			enc := jenc(r, v)
 			if strings.HasPrefix(enc, "ok x") {
 				r.Do(L(A("jrt"), A("desc"), v, A(enc[3:])), true, "jrt.desc")
 			}
@@ -440,7 +440,7 @@ func runC16(r *Runner, g *Gen, tier string) string {
 			if v.head() != "a" {
 				v = L(A("a"), v)
 			}
-			enc := execOp(L(A("jrt"), A("enc"), v))
+			enc := jenc(r, v)
 			if strings.HasPrefix(enc, "ok x") {
 				r.Do(L(A("jrt"), A("top"), v, A(enc[3:])), true, "jrt.deep")
 				r.Do(L(A("jrt"), A("desc"), v, A(enc[3:])), true, "jrt.deep-desc")
@@ -641,4 +641,15 @@ func jHasMultiKeyMaps(v interface{}) bool {
 		}
 	}
 	return false
+}
+
+// jenc: Marshal of a JSON-any value (used to build later ops); a marshal that differs between
+// destinations is reported here, since the op itself is not part of the recorded stream.
+func jenc(r *Runner, v *Sexp) string {
+	op := L(A("jrt"), A("enc"), v)
+	res := execOp(op)
+	if strings.HasPrefix(res, "buffer-differs") || res == "panic" {
+		r.Oracle(op, "Marshal of a JSON-any value into an empty / small / prefixed destination differs from Marshal(nil, v): "+clip(res, 300))
+	}
+	return res
 }
